@@ -370,4 +370,62 @@ def runSched (cfg : Config) : List (Nat × Int) → Sys → Sys
   | [], sys => sys
   | (i, t) :: rest, sys => runSched cfg rest (stepThread cfg sys i t)
 
+/-! ### concurrency, fine grain: every lock boundary and every clock read is its own step
+
+`Config.cert` reads the clock three times (inside `Leaf.Verify`, and twice in the template:
+`NotBefore: time.Now().Add(-validity)`, `NotAfter: time.Now().Add(validity)`) and takes the mutex
+twice. Between any two of these another requester may run and time may pass; in particular a cached
+certificate may expire between the read-locked lookup and its `Verify`, between `Verify` and the
+return, and another requester may replace the entry while this one still holds the old pointer. -/
+
+inductive FPc where
+  | start (hostname : Bytes)                        -- before `c.certmu.RLock()`
+  | looked (host : Bytes) (c : Cert)                -- hit, lock released, before `tlsc.Leaf.Verify`
+  | miss (host : Bytes)                             -- before `rand.Int` / the first `time.Now()`
+  | tmplNB (host : Bytes) (serial : Nat) (nb : Int) -- `NotBefore` fixed, before the second `time.Now()`
+  | signed (host : Bytes) (c : Cert) (t : Int)      -- leaf created at `t`, before `c.certmu.Lock()`
+  | ret (o : Outcome) (tchk : Int)                  -- verified / created at `tchk`, before `return`
+  | done (o : Outcome) (tchk tret : Int)            -- returned at `tret`
+  deriving DecidableEq, Repr
+
+structure FSys where
+  st : State
+  clock : Int
+  threads : List FPc
+  deriving Repr
+
+/-- The map insert under the write lock (the serial was drawn earlier). -/
+def insertCert (s : State) (host : Bytes) (c : Cert) : State := { s with cache := (host, c) :: s.cache }
+
+/-- Thread `i` takes its next step after `delta` ms have passed. -/
+def stepF (cfg : Config) (sys : FSys) (i : Nat) (delta : Nat) : FSys :=
+  let now := sys.clock + (delta : Int)
+  let sys : FSys := { sys with clock := now }
+  match sys.threads[i]? with
+  | none => sys
+  | some (.start hostname) =>
+    let host := normalise hostname
+    if host.isEmpty then { sys with threads := sys.threads.set i (.ret .refused now) }
+    else match sys.st.cache.lookup host with
+      | some c => { sys with threads := sys.threads.set i (.looked host c) }
+      | none => { sys with threads := sys.threads.set i (.miss host) }
+  | some (.looked host c) =>
+    if goVerify c host now then { sys with threads := sys.threads.set i (.ret (.served c false) now) }
+    else { sys with threads := sys.threads.set i (.miss host) }
+  | some (.miss host) =>
+    { sys with st := { sys.st with next := sys.st.next + 1 },
+               threads := sys.threads.set i (.tmplNB host sys.st.next (floorSec (now - cfg.validity))) }
+  | some (.tmplNB host serial nb) =>
+    let c : Cert := { serial := serial, names := (sanFor host).1, ips := (sanFor host).2, notBefore := nb,
+                      notAfter := floorSec (now + cfg.validity), org := cfg.org, signedByCA := true, keyHeld := true }
+    { sys with threads := sys.threads.set i (.signed host c now) }
+  | some (.signed host c t) =>
+    { sys with st := insertCert sys.st host c, threads := sys.threads.set i (.ret (.served c true) t) }
+  | some (.ret o t) => { sys with threads := sys.threads.set i (.done o t now) }
+  | some (.done _ _ _) => sys
+
+def runF (cfg : Config) : List (Nat × Nat) → FSys → FSys
+  | [], sys => sys
+  | (i, d) :: rest, sys => runF cfg rest (stepF cfg sys i d)
+
 end Martian.Mitm
